@@ -5,6 +5,10 @@ scalar) and keep the stored tensor well formed.
 -/
 import PyttbModel.Lemmas.MutArrayDense
 import PyttbModel.Lemmas.Rows
+set_option linter.unusedSimpArgs false
+set_option linter.unusedVariables false
+set_option linter.unusedSectionVars false
+
 namespace Pyttb
 
 variable {α : Type}
